@@ -153,17 +153,19 @@ func jsonAddKeyElements(s Entry, dict map[string]any) {
 	// retrieve the parent schema, we need to extract the key names
 	// values are the tree level names
 	parentSchema, levelsUp := s.GetFirstAncestorWithSchema()
-	// from the parent we get the keys as slice
-	schemaKeys := parentSchema.GetSchemaKeys()
+	// from the parent we get the keys as slice, the key levels of the tree
+	// are sorted by the name of the key (see utils.ToStrings())
+	schemaKeys := slices.Clone(parentSchema.GetSchemaKeys())
+	slices.Sort(schemaKeys)
 	var treeElem Entry = s
 	// the keys do match the levels up in the tree in reverse order
 	// hence we init i with levelUp and count down
-	for i := levelsUp - 1; i >= 0; i-- {
+	for i := levelsUp - 1; i >= 0 && i < len(schemaKeys); i-- {
 		// skip if the element already exists
 		if _, exists := dict[schemaKeys[i]]; !exists {
 			// and finally we create the patheleme key attributes
 			dict[schemaKeys[i]] = treeElem.PathName()
-			treeElem = treeElem.GetParent()
 		}
+		treeElem = treeElem.GetParent()
 	}
 }
